@@ -9,9 +9,11 @@ import (
 	"strconv"
 	"strings"
 	"testing"
+	"time"
 
 	"github.com/openGemini/openGemini/engine/hybridqp"
 	"github.com/openGemini/openGemini/lib/util/lifted/influx/influxql"
+	"github.com/openGemini/openGemini/lib/util/lifted/influx/query"
 	"pgregory.net/rapid"
 	"verif/internal/ev"
 )
@@ -211,6 +213,35 @@ func checkCondShip(text string, params map[string]interface{}) (outcome, error) 
 	return reparseExpr(st.Condition)
 }
 
+// checkPlannedCond: as checkCondShip, but the condition is the one the planner keeps after query.Compile
+// (time range split off by ConditionExpr, constants reduced, regex conditions rewritten): that one is
+// what ProcessorOptions.Condition holds when it is marshalled.
+func checkPlannedCond(text string, params map[string]interface{}) (outcome, error) {
+	st, err := yaccSelect("SELECT v FROM m WHERE "+text, params)
+	if err != nil {
+		return outcome{rejected: err.Error()}, nil
+	}
+	if isNilExpr(st.Condition) || len(st.Sources) != 1 || len(st.Dimensions) != 0 || len(st.SortFields) != 0 || st.Limit != 0 || st.Fill != influxql.NullFill {
+		return outcome{rejected: "text did not stay inside the WHERE clause"}, nil
+	}
+	var cerr error
+	func() {
+		defer func() {
+			if r := recover(); r != nil {
+				cerr = fmt.Errorf("compile panic: %v", r)
+			}
+		}()
+		_, _, cerr = query.Compile(st, query.CompileOptions{Now: time.Unix(1700000000, 0).UTC()})
+	}()
+	if cerr != nil {
+		return outcome{rejected: "compile: " + cerr.Error()}, nil
+	}
+	if isNilExpr(st.Condition) {
+		return outcome{rejected: "no condition left after planning"}, nil
+	}
+	return reparseExpr(st.Condition)
+}
+
 // checkFieldsShip: the field list travels as Fields.String() inside the QuerySchema message and is read
 // with hybridqp.ParseFields (query/processor_codec.go DecodeQuerySchema).
 func checkFieldsShip(text string, params map[string]interface{}) (outcome, error) {
@@ -316,7 +347,9 @@ func finish(t *rapid.T, c *ev.Case, kind, text string, params map[string]interfa
 	if out.rejected != "" {
 		c.Class("rejected")
 		if strings.Contains(out.rejected, "panic") {
-			c.Class("rejected=front_end_panic")
+			// not this property (the text never became a tree), but worth knowing: kept as a note in the evidence
+			c.Class("rejected=panic_in_first_parse_or_planning")
+			ev.Note(kind, "example_panic", map[string]any{"text": text, "params": tc.Params, "what": clip(out.rejected)})
 		}
 		return
 	}
@@ -331,7 +364,7 @@ func finish(t *rapid.T, c *ev.Case, kind, text string, params map[string]interfa
 		c.Class("has=bound_param")
 	}
 	skip := false
-	for _, cls := range knownClassesOf(trees) {
+	for _, cls := range knownClassesOfR(trees, kind != "expr_rd") {
 		if !classIncluded(cls) {
 			c.Excluded("tree:" + cls)
 			skip = true
@@ -372,6 +405,21 @@ func TestCondShip(t *testing.T) {
 	}))
 }
 
+func TestPlannedCond(t *testing.T) {
+	rapid.Check(t, ev.Prop(prop, "planned_cond", func(t *rapid.T, c *ev.Case) {
+		g := &gen{t: t, c: c, d: dialect{yacc: true, params: true, planned: true}, params: map[string]interface{}{}}
+		text := g.cond(depthDraw(t))
+		out, err := checkPlannedCond(text, g.params)
+		if strings.HasPrefix(out.rejected, "compile:") {
+			c.Class("rejected=by_compile")
+			c.Class("rejected=by_compile:" + clip(strings.SplitN(strings.TrimPrefix(out.rejected, "compile: "), ":", 2)[0]))
+		} else if out.rejected != "" {
+			c.Class("rejected:" + clip(strings.SplitN(out.rejected, ":", 2)[0]))
+		}
+		finish(t, c, "planned_cond", text, g.params, out, err)
+	}))
+}
+
 func TestFieldsShip(t *testing.T) {
 	rapid.Check(t, ev.Prop(prop, "fields_ship", func(t *rapid.T, c *ev.Case) {
 		g := &gen{t: t, c: c, d: dialect{yacc: true, fields: true, params: true}, params: map[string]interface{}{}}
@@ -400,6 +448,8 @@ func replayText(raw json.RawMessage) error {
 		out, err = checkCondShip(tc.Text, params)
 	case "fields_ship":
 		out, err = checkFieldsShip(tc.Text, params)
+	case "planned_cond":
+		out, err = checkPlannedCond(tc.Text, params)
 	case "stmt_rt":
 		out, err = checkStmt(tc.Text, params)
 	default:
